@@ -675,14 +675,17 @@ func startStateSync(ssR *statesync.Reactor, bcR fastSyncReactor, conR *cs.Reacto
 			ssR.Logger.Error("State sync failed", "err", err)
 			return
 		}
-		err = stateStore.Bootstrap(state)
-		if err != nil {
-			ssR.Logger.Error("Failed to bootstrap node with new state", "err", err)
-			return
-		}
+		// The seen commit must be durable before the state is: a node that restarts with the
+		// restored state but without the commit for its last block cannot start consensus (and
+		// will not state sync again, since its state is no longer empty).
 		err = blockStore.SaveSeenCommit(state.LastBlockHeight, commit)
 		if err != nil {
 			ssR.Logger.Error("Failed to store last seen commit", "err", err)
+			return
+		}
+		err = stateStore.Bootstrap(state)
+		if err != nil {
+			ssR.Logger.Error("Failed to bootstrap node with new state", "err", err)
 			return
 		}
 
